@@ -442,11 +442,22 @@ def r30_cli_flow(ctx):
         for n in walk_no_nested(main.node):
             if isinstance(n, ast.Call) and U(n.func) == "'\\n'.join" and \
                     len(n.args) == 1 and isinstance(n.args[0], ast.Call) and \
-                    U(n.args[0].func).split(".")[-1] == "islice" and \
                     len(n.args[0].args) == 2 and \
                     "iter_recurrence_str" in U(n.args[0].args[0]) and \
                     ("%s.max_results" % argsv) in U(n.args[0].args[1]):
-                ok = True
+                taker = U(n.args[0].func).split(".")[-1]
+                if taker == "islice":
+                    ok = True
+                else:
+                    # a generator of this module that stops at its count
+                    g = ctx.try_func("main." + taker)
+                    if g is not None and len(g.params) == 2 and any(
+                            isinstance(x, (ast.Yield, ast.YieldFrom))
+                            for x in ast.walk(g.node)) and any(
+                                isinstance(x, ast.Compare) and
+                                g.params[1] in U(x)
+                                for x in ast.walk(g.node)):
+                        ok = True
     if lp:
         body = lp[0].body
         ok = len(body) == 2 and isinstance(body[0], ast.Expr) and \
